@@ -139,8 +139,8 @@ def cases(tier, seed):
         yield {'op': 'qtt', 'N': N, 'R': _minimal_ranks(N, 2), 'dt': 'f64', 'ms': 3, 's': salt}
     for d in range(1, 3 if quick else 4):
         for N in itertools.product((2, 4, 8) if quick else (1, 2, 4, 8), repeat=d):
-            if int(np.prod(N)) > 64:
-                continue
+            if int(np.prod(N)) > 64 or int(np.prod(N)) == 1:
+                continue          # a 1 x 1 operator has no QTT modes at all (nothing to return)
             for dt in ('f64', 'c128'):
                 yield {'op': 'qtt_ttm', 'N': list(N), 'R': _minimal_ranks(list(N), 2), 'dt': dt, 's': salt}
 
